@@ -79,6 +79,7 @@ type mapEntry struct {
 
 type Map struct {
 	kt      types.Type
+	traced  bool // lookups by constant string key are recorded (verifrt.TraceKeys)
 	idx     map[any]*mapEntry
 	order   []*mapEntry
 	n       int
